@@ -2,7 +2,7 @@ HOOKS = dict(
     guard="verif",
     enable="go build -tags verif (the harness module /verif/harness replaces the btcwallet modules with /repo and its nested modules)",
     baseline_off_cmd="for m in . walletdb wtxmgr wallet/txauthor wallet/txrules wallet/txsizes; do (cd /repo/$m && go test -vet=off -count=1 -timeout 25m ./...) || exit 1; done",
-    source_commits=[],
+    source_commits=["5b644b4"],
     add_only=True,
 )
 
@@ -20,4 +20,28 @@ CHECKS = {
         note="Trusted: Coq kernel+vm_compute, hand-written model Migrate/Migrate.v, harness and driver; atomicity of the enclosing "
              "walletdb.Update is C11's subject (modelled here as restore-on-error). No axioms (Print Assumptions: closed).",
     ),
+    "C01": dict(category="exploration",
+        text="INTERIM: differential exploration. The store model (coq/Tx/Store.v, bucket for bucket), the ledger spec and the refinement "
+             "invariant are in place and the composition theorem C01_from_refinement is closed; the per-event preservation lemmas are "
+             "being proved (coq/Tx/PROOFS.md). Until they are all closed the deciding leg is: real wtxmgr vs Coq model vs Coq ledger spec "
+             "after every event of generated chain-consistent histories (validated by the Coq predicate).",
+        note="Trusted: generator (node simulator) reaches the relevant histories; Coq evaluation by vm_compute; bbolt.",
+        technique="differential correspondence against an executable Coq model and Coq ledger specification; refinement proof in progress"),
+    "C02": dict(category="exploration",
+        text="INTERIM: as C01, on pairs of histories with equal final facts (generated history vs direct construction), plus the corpus "
+             "replay of the repaired coinbase-descendant defect; composition theorem C02_from_refinement closed, refinement lemmas in progress.",
+        note="Trusted: as C01.",
+        technique="differential correspondence against an executable Coq model and Coq ledger specification; refinement proof in progress"),
+    "C12": dict(category="exploration",
+        text="INTERIM: per-operation lease theorems (other id rejected for lease and release, same id extends, owner release frees, "
+             "exact expiry instant, unknown output rejected, leased output absent from the spendable set) are closed for every store state; "
+             "the history-level clauses (excluded from balance, confirmed spend removes the lease) wait for the refinement lemmas and are "
+             "decided by the differential run with a mock clock on both sides of the expiry instant and across reopen.",
+        note="Trusted: as C01; clock injected through the verif hook wtxmgr.VerifSetClock.",
+        technique="Coq theorems on the lease operations of the model + differential correspondence with mock clock; refinement proof in progress"),
+    "C13": dict(category="exploration",
+        text="INTERIM: as C01 with TxDetails/UniqueTxDetails/RangeTransactions for every universe tx after every event vs model and vs "
+             "spec_details; composition theorem closed, refinement lemmas in progress.",
+        note="Trusted: as C01.",
+        technique="differential correspondence against an executable Coq model and Coq ledger specification; refinement proof in progress"),
 }
